@@ -27,7 +27,7 @@ fn spec(t: Tier) -> Spec {
     Spec {
         id: "C07",
         level: "exploration",
-        rule: format!("every name of <= {} characters over {:?} (except . and ..) is created as a file (t/f/NAME), as a directory holding another such name (t/d/NAME/NEXT), and used as a starting point; find_main's -print0 and -print output must be, byte for byte, the starting point as given + '/'-joined names + one delimiter per entry and nothing else (reference list built from the names, sequence under -sorted); the same tree goes through a real `find -print0 | xargs -0 vrec LOG` pipeline and the recorder's argv must be that list exactly, each path once; extra slices: a path with a newline followed by >1024 bytes through real stdout (pipe and file), and a listing arranged so that a multi-byte character straddles the 8192-byte buffer refill of xargs -0; non-trivial = name containing a character other than 'a' and '.'", maxlen(t), ALPHA),
+        rule: format!("every name of <= {} characters over {:?} (except . and ..) is created as a file (t/f/NAME), as a directory holding another such name (t/d/NAME/NEXT), and used as a starting point (as given, and for directories with a trailing '/' under -P, -H and -L; the starting-point lists also go through the real pipeline); find_main's -print0 and -print output must be, byte for byte, the starting point as given + '/'-joined names + one delimiter per entry and nothing else (reference list built from the names, sequence under -sorted); the same tree goes through a real `find -print0 | xargs -0 vrec LOG` pipeline and the recorder's argv must be that list exactly, each path once; extra slices: a path with a newline followed by >1024 bytes through real stdout (pipe and file), and a listing arranged so that a multi-byte character straddles the 8192-byte buffer refill of xargs -0; non-trivial = name containing a character other than 'a' and '.'", maxlen(t), ALPHA),
         bound: json!({"max_name_len": maxlen(t), "alphabet": ALPHA}),
         assumptions: vec!["names are valid UTF-8 (the statement's scope); tmpfs".into()],
         shards: 0,
@@ -113,13 +113,18 @@ fn first_diff(a: &[u8], b: &[u8]) -> String {
 }
 
 fn pipeline_check(ctx: &mut Ctx, sbx: &Path, root_args: &[&str], exp: &[String], what: &str) {
+    pipeline_check_in(ctx, sbx, sbx, root_args, exp, what)
+}
+
+/// the same with the pipeline's working directory `cwd` (the recorder log stays in `sbx`)
+fn pipeline_check_in(ctx: &mut Ctx, sbx: &Path, cwd: &Path, root_args: &[&str], exp: &[String], what: &str) {
     let vrec = crate::engine::self_bin_dir().join("vrec");
     let log = sbx.join(".mc-vrec.log");
     let _ = std::fs::remove_file(&log);
     let mut a1: Vec<&OsStr> = root_args.iter().map(OsStr::new).collect();
     a1.push(OsStr::new("-print0"));
     let a2: Vec<&OsStr> = vec![OsStr::new("-0"), vrec.as_os_str(), log.as_os_str()];
-    let (f, x) = binrun::pipeline(&binrun::repo_bin("find"), &a1, &binrun::repo_bin("xargs"), &a2, sbx, &[]);
+    let (f, x) = binrun::pipeline(&binrun::repo_bin("find"), &a1, &binrun::repo_bin("xargs"), &a2, cwd, &[]);
     ctx.rep.evaluations += 1;
     ctx.rep.count("pipeline_runs", 1);
     let recs = crate::vreclog::read(&log).unwrap_or_default();
@@ -198,6 +203,42 @@ fn run(ctx: &mut Ctx) {
                     format!("status {:?}; {}", got.code, first_diff(&want, &got.out)),
                     json!({"prop":"C07","kind":"roots","roots":chunk}),
                 );
+            }
+        }
+        std::env::set_current_dir(&sbx).unwrap();
+        // the same names as starting points through the real pipeline (every 3rd batch, and always the
+        // first, which holds the blank-only names ' ', TAB, newline)
+        if bi % 3 == 0 {
+            let roots: Vec<&str> = usable.iter().map(|s| s.as_str()).collect();
+            let exp2: Vec<String> = usable.iter().map(|s| s.to_string()).collect();
+            pipeline_check_in(ctx, &sbx, &tf, &roots, &exp2, "names as starting points");
+        }
+        // directories as starting points spelled with a trailing '/', under every follow mode:
+        // printed as given, the entry below joined without a second '/'
+        let td = sbx.join("t/d");
+        std::env::set_current_dir(&td).unwrap();
+        for flag in ["-P", "-H", "-L"] {
+            for chunk in usable.chunks(40) {
+                let spelled: Vec<String> = chunk.iter().map(|n| format!("{n}/")).collect();
+                let mut args: Vec<&str> = vec![flag];
+                args.extend(spelled.iter().map(|s| s.as_str()));
+                args.extend(["-sorted", "-print0"]);
+                let got = run_find(&args);
+                ctx.rep.evaluations += 1;
+                let mut want_list: Vec<String> = vec![];
+                for n in chunk {
+                    let i = batch.iter().position(|x| &x == n).unwrap();
+                    want_list.push(format!("{n}/"));
+                    want_list.push(format!("{n}/{}", batch[(i + 1) % batch.len()]));
+                }
+                let want = joined(&want_list, 0);
+                if got.code != Ok(0) || got.out != want {
+                    ctx.rep.violation(
+                        &format!("C07 starting point spelled with a trailing '/' not printed exactly as given [{flag}]"),
+                        format!("status {:?}; {}", got.code, first_diff(&want, &got.out)),
+                        json!({"prop":"C07","kind":"roots","roots":spelled,"flag":flag}),
+                    );
+                }
             }
         }
         std::env::set_current_dir(&sbx).unwrap();
